@@ -277,6 +277,12 @@ func e2eInner(t *testing.T) {
 	must("link", "set", "veth0", "up")
 	must("link", "set", "veth1", "up")
 	time.Sleep(300 * time.Millisecond)
+	// the host has an uplink of its own: a default route through another interface, which is none of the client's business
+	must("link", "add", "wan0", "type", "veth", "peer", "name", "wan0b")
+	must("link", "set", "wan0b", "up")
+	must("link", "set", "wan0", "up")
+	must("addr", "add", "192.168.9.2/24", "dev", "wan0")
+	must("route", "add", "default", "via", "192.168.9.1", "dev", "wan0", "metric", "100")
 
 	tapFd, _, err := e2eRawSock("veth0")
 	if err != nil {
@@ -614,6 +620,22 @@ func e2eInner(t *testing.T) {
 			bad("c08", "e2e-offered-claimed-address", "offered %s although a foreign host answered the server's ARP probe for it (by link-layer broadcast, RFC 5227 2.6)", ip4(y))
 		}
 	}
+	// default routes through the client's interface; whether the uplink's route is still there
+	ownDefault := func() string {
+		var own []string
+		for _, l := range strings.Split(ipOut("-4", "route", "show", "default"), "\n") {
+			if strings.Contains(l, "dev veth1") {
+				own = append(own, strings.TrimSpace(l))
+			}
+		}
+		return strings.Join(own, "\n")
+	}
+	checkUplink := func(when string) {
+		seen("c15")
+		if rt := ipOut("-4", "route", "show", "default", "dev", "wan0"); !strings.Contains(rt, "via 192.168.9.1") {
+			bad("c15", "e2e-interface", "%s: the host's default route through another interface (via 192.168.9.1 dev wan0) is gone; routes now: %q", when, strings.TrimSpace(ipOut("-4", "route", "show")))
+		}
+	}
 	checkIface := func(when string) {
 		seen("c15")
 		if lastAck == nil {
@@ -632,9 +654,10 @@ func e2eInner(t *testing.T) {
 				router = net.IP(o.data[:4]).String()
 			}
 		}
-		if rt := strings.TrimSpace(ipOut("-4", "route", "show", "default")); !strings.Contains(rt, "via "+router+" dev veth1") || strings.Count(rt, "default") != 1 {
+		if rt := ownDefault(); !strings.Contains(rt, "via "+router+" dev veth1") || strings.Count(rt, "default") != 1 {
 			bad("c15", "e2e-interface", "%s: default route is %q, the ACK announced router %s", when, rt, router)
 		}
+		checkUplink(when)
 	}
 	lifetime := func() int {
 		out := ipOut("-4", "-o", "addr", "show", "dev", "veth1")
@@ -840,32 +863,69 @@ func e2eInner(t *testing.T) {
 			}
 			if !gone {
 				bad("c15", "e2e-nak", "a NAK while rebinding: the address %s is still configured 4 s later (lease acknowledged as infinite before)\n%s", ip4(leased), tailStr(cliLog.String(), 500))
-			} else if rt := strings.TrimSpace(ipOut("-4", "route", "show", "default")); rt != "" {
+			} else if rt := ownDefault(); rt != "" {
 				bad("c15", "e2e-nak", "a NAK while rebinding: the address is gone but the default route stays: %q", rt)
 			}
+			checkUplink("after a NAK while rebinding")
 		}
 		// the real server comes back: the client discovers again
-		syscall.Kill(srv.Process.Pid, syscall.SIGCONT)
-		mark := len(tap.snapshot())
-		for end := time.Now().Add(25 * time.Second); configured() == "" && time.Now().Before(end); {
-			time.Sleep(100 * time.Millisecond)
-		}
-		time.Sleep(800 * time.Millisecond)
-		offer, ack = nil, nil
-		for _, f := range tap.snapshot()[mark:] {
-			if f.outgoing && len(f.b) > 14+28 && f.b[12] == 0x08 && f.b[13] == 0 {
-				if rp := parseReply(f.b[14:]); rp.ok && rp.typ == 5 && bytes.Equal(rp.msg.chaddr, cliMAC) {
-					x := rp
-					lastAck = &x
+		reacquire := func(after string) {
+			syscall.Kill(srv.Process.Pid, syscall.SIGCONT)
+			mark := len(tap.snapshot())
+			for end := time.Now().Add(25 * time.Second); configured() == "" && time.Now().Before(end); {
+				time.Sleep(100 * time.Millisecond)
+			}
+			time.Sleep(800 * time.Millisecond)
+			offer, ack = nil, nil
+			for _, f := range tap.snapshot()[mark:] {
+				if f.outgoing && len(f.b) > 14+28 && f.b[12] == 0x08 && f.b[13] == 0 {
+					if rp := parseReply(f.b[14:]); rp.ok && rp.typ == 5 && bytes.Equal(rp.msg.chaddr, cliMAC) {
+						x := rp
+						lastAck = &x
+					}
 				}
 			}
+			if configured() == "" {
+				bad("c15", "e2e-no-lease", "no lease again within 25 s after %s\n%s", after, tailStr(cliLog.String(), 600))
+			} else {
+				checkIface("after the lease acquired again from psa-dhcpd (" + after + ")")
+				checkLifetime("after the lease acquired again (" + after + ")")
+				cliQuiet = stableSockets(cli.Process.Pid)
+			}
 		}
-		if configured() == "" {
-			bad("c15", "e2e-no-lease", "no lease again within 25 s after the NAK\n%s", tailStr(cliLog.String(), 600))
-		} else {
-			checkIface("after the lease acquired again from psa-dhcpd")
-			checkLifetime("after the lease acquired again")
-			cliQuiet = stableSockets(cli.Process.Pid)
+		reacquire("the NAK")
+		// ---- a configuration the kernel refuses: psa-dhcpd is stopped again and the observer acknowledges the next re-validation
+		// naming a router outside the subnet (that route cannot be added).  The client has to remove what it configured, the
+		// host's own route stays, and the failed attempt leaves no descriptor behind ----
+		if configured() != "" && alive(cli) && alive(srv) {
+			syscall.Kill(srv.Process.Pid, syscall.SIGSTOP)
+			if answer("ACK naming a router outside the subnet", func(rq wreply) wmsg {
+				m := wmsg{op: 2, htype: 1, hlen: 6, xid: rq.msg.xid, yiaddr: rq.msg.ciaddr, siaddr: otherIP, chaddr: rq.msg.chaddr, cookie: 0x63825363}
+				m.opts = []wopt{{53, []byte{5}}, {54, u32b(otherIP)}, {51, u32b(600)}, {1, []byte{255, 255, 255, 0}}, {3, u32b(0x0a630001)}, {6, u32b(0x0a4d0035)}}
+				return m
+			}) {
+				seen("c15")
+				seen("c19")
+				gone := false
+				for end := time.Now().Add(4 * time.Second); time.Now().Before(end) && !gone; time.Sleep(50 * time.Millisecond) {
+					gone = configured() == ""
+				}
+				if !gone {
+					bad("c15", "e2e-failed-config", "the router of the ACK (10.99.0.1) cannot be installed, yet the address is still configured 4 s later: %q\n%s", configured(), tailStr(cliLog.String(), 500))
+				} else if rt := ownDefault(); rt != "" {
+					bad("c15", "e2e-failed-config", "after a configuration the kernel refused a default route through the interface stays: %q", rt)
+				}
+				checkUplink("after a configuration the kernel refused")
+				if n := stableSockets(cli.Process.Pid); n > cliQuiet {
+					bad("c19", "e2e-sockets", "psa-dhcpc holds %d sockets after a configuration the kernel refused, %d while bound before it", n, cliQuiet)
+				}
+			}
+			// (a link event ends the pause the client takes after the failure)
+			time.Sleep(2500 * time.Millisecond)
+			must("link", "set", "veth1b", "down")
+			time.Sleep(200 * time.Millisecond)
+			must("link", "set", "veth1b", "up")
+			reacquire("the refused configuration")
 		}
 	}
 
@@ -972,6 +1032,7 @@ func e2eInner(t *testing.T) {
 			}
 		}
 	}
+	firstLog := ""
 	// the program started with -default_route=false: the address of the ACK is configured, the router it announced is withheld
 	if alive(cli) && alive(srv) && os.Getenv("VERIF_TIER") != "thorough" {
 		seen("c15")
@@ -981,6 +1042,7 @@ func e2eInner(t *testing.T) {
 		}
 		exec.Command("ip", "-4", "addr", "flush", "dev", "veth1").Run()
 		exec.Command("ip", "-4", "route", "flush", "dev", "veth1").Run()
+		firstLog = cliLog.String()
 		cli, cliLog = start("psa-dhcpc", "-ifname", "veth1", "-default_route=false")
 		defer cli.Process.Kill()
 		until := time.Now().Add(20 * time.Second)
@@ -995,9 +1057,10 @@ func e2eInner(t *testing.T) {
 			}
 		} else {
 			time.Sleep(700 * time.Millisecond)
-			if rt := strings.TrimSpace(ipOut("-4", "route", "show", "default")); rt != "" {
+			if rt := ownDefault(); rt != "" {
 				bad("c15", "e2e-interface", "started with -default_route=false, the program installed the default route %q", rt)
 			}
+			checkUplink("started with -default_route=false")
 			if got := configured(); !strings.HasPrefix(got, "10.77.0.") || !strings.HasSuffix(got, "/24") {
 				bad("c15", "e2e-interface", "started with -default_route=false, the interface holds %q", got)
 			}
@@ -1033,7 +1096,7 @@ func e2eInner(t *testing.T) {
 	syscall.Close(tapFd)
 	syscall.Close(injFd)
 	if os.Getenv("E2E_LOGS") != "" {
-		os.WriteFile(os.Getenv("E2E_LOGS"), []byte(srvLog.String()+"\n=====\n"+cliLog.String()), 0o644)
+		os.WriteFile(os.Getenv("E2E_LOGS"), []byte(srvLog.String()+"\n=====\n"+firstLog+"\n=====\n"+cliLog.String()), 0o644)
 	}
 	e2eWriteAll(t, logs, "acquire, ARP claim, link flap, malformed frames")
 	_ = rand.Int
